@@ -54,24 +54,75 @@ def bad_value(rng, p):
     return rng.choice(GROUPS)
 
 
-def option_token(rng, p, flags):
-    """one of the forms the parser accepts for an option"""
-    forms = ["--" + p["name"].replace("_", "-")]
+def long_names(m):
+    """the long option strings (without `--`) of the sub-parser of member `m`: `help` first, then the options"""
+    return ["help"] + [p["name"].replace("_", "-") for p in m.get("params", []) if p["kind"] in ("opt", "flag")]
+
+
+def resolves_to(prefix, longs):
+    """argparse's reading of `--<prefix>`: the exact long option, else the only one it is a prefix of; None: unknown;
+    a list: ambiguous (the harness's own statement of the rule — used to *generate* and to *count*, never to judge)"""
+    if prefix in longs:
+        return prefix
+    hits = [n for n in longs if n.startswith(prefix)]
+    if len(hits) == 1:
+        return hits[0]
+    return hits or None
+
+
+def abbreviations(name, longs):
+    """the proper non-empty prefixes of `name` that are unambiguous abbreviations of it"""
+    return [name[:k] for k in range(1, len(name)) if resolves_to(name[:k], longs) == name]
+
+
+def ambiguous_prefixes(longs):
+    out = set()
+    for n in longs:
+        for k in range(0, len(n)):
+            if isinstance(resolves_to(n[:k], longs), list):
+                out.add(n[:k])
+    return sorted(out)
+
+
+def option_tokens(rng, p, flags, longs, value):
+    """the strings of one option in one of the forms the parser accepts: `-f V`, `--name V`, `--name=V`, an unambiguous
+    abbreviation `--na V` / `--na=V`; a flag has no value (`-f`, `--name`, `--na`)"""
+    full = p["name"].replace("_", "-")
     f = flags.get(p["name"])
-    if f:
-        forms.append("-" + f)
-    return rng.choice(forms)
+    abbr = abbreviations(full, longs)
+    r = rng.random()
+    if r < 0.25 and f:
+        head, eq = "-" + f, False
+    elif r < 0.50 or (r >= 0.70 and not abbr):
+        head, eq = "--" + full, False
+    elif r < 0.70:
+        head, eq = "--" + full, True
+    elif r < 0.87:
+        head, eq = "--" + rng.choice(abbr), False
+    else:
+        head, eq = "--" + rng.choice(abbr), True
+    if value is None:
+        return [head]
+    if eq:
+        return [head + "=" + value]
+    return [head, value]
 
 
 def command_line(rng, cmd, m, flags, subset=None, bad=0.0, opts_first=None):
     """a call of command `cmd` (member dict `m`): a value per positional, some values for a var-positional, the options in
-    `subset` (default: a random subset).  With probability `bad` one defect is planted."""
+    `subset` (default: a random subset), each in one of its forms (short, long, `=`, abbreviated).  With probability
+    `bad` one defect is planted."""
+    longs = long_names(m)
     if m["kind"] == "propro":
+        if rng.random() < bad:
+            return cmd + " " + rng.choice(["--he", "--h", "--help=1", "--x", "--x=1", "--=", "3"])
         return cmd
     if m["kind"] == "proprw":
         if rng.random() < 0.5:
             return cmd
         p = m["params"][0]
+        if rng.random() < bad * 0.3:
+            return cmd + " " + rng.choice(["--he", "--hel=1", "--x=1", "--="]) + rng.choice(["", " x"])
         return cmd + " " + (bad_value(rng, p) if rng.random() < bad else good_value(rng, p))
     ps = m["params"]
     opts = [p for p in ps if p["kind"] in ("opt", "flag")]
@@ -79,7 +130,8 @@ def command_line(rng, cmd, m, flags, subset=None, bad=0.0, opts_first=None):
         subset = [p["name"] for p in opts if rng.random() < 0.4]
     pos, post = [], []
     plant = rng.random() < bad
-    defect = rng.choice(["badval", "missing", "extra", "novalue", "unknown"]) if plant else None
+    defect = rng.choice(["badval", "missing", "extra", "novalue", "unknown", "ambiguous", "explicit", "eqempty", "eqdash",
+                         "badval"]) if plant else None
     for p in ps:
         if p["kind"] == "pos":
             if defect == "missing":
@@ -92,20 +144,94 @@ def command_line(rng, cmd, m, flags, subset=None, bad=0.0, opts_first=None):
     chosen = [p for p in opts if p["name"] in subset]
     rng.shuffle(chosen)
     for p in chosen:
-        post.append(option_token(rng, p, flags))
-        if p["kind"] == "opt":
-            if defect == "novalue" and rng.random() < 0.5:
-                defect = "done"
-                continue
-            post.append(bad_value(rng, p) if defect == "badval" and rng.random() < 0.5 else good_value(rng, p))
+        if p["kind"] != "opt":
+            post += option_tokens(rng, p, flags, longs, None)
+            continue
+        if defect == "novalue" and rng.random() < 0.5:
+            defect = "done"
+            post.append(option_tokens(rng, p, flags, longs, None)[0])
+            continue
+        value = bad_value(rng, p) if defect == "badval" and rng.random() < 0.5 else good_value(rng, p)
+        if p["conv"] == "str" and rng.random() < 0.1:
+            value = rng.choice(["", "-x", "--x", "a=b", "=", "-1"])      # only legal behind `=`
+            post.append("--" + rng.choice([p["name"].replace("_", "-")] + abbreviations(p["name"].replace("_", "-"), longs))
+                        + "=" + value)
+            continue
+        post += option_tokens(rng, p, flags, longs, value)
     if defect == "extra":
         pos.append(rng.choice(INTS + ["zz"]))
     if defect == "unknown":
-        post.append(rng.choice(["-z", "-Q", "--zzz", "-9x"]))
+        post.append(rng.choice(["-z", "-Q", "--zzz", "-9x", "--zzz=1", "--Help", "--help-", "--zz=", "--" + longs[-1] + "x"]))
+    if defect == "ambiguous":
+        amb = ambiguous_prefixes(longs)
+        named = [a for a in amb if a] or amb
+        if named:
+            a = rng.choice(named)
+            tok = "--" + a + rng.choice(["", "", "=1", "=", "=x"])
+            if tok == "--":
+                tok = "--=1"
+            post.insert(rng.randint(0, len(post)), tok)          # anywhere among the options: it is fatal wherever it stands
+        else:
+            post.append("--" + rng.choice(abbreviations("help", longs) or ["help"]))
+    if defect == "explicit":
+        # an option that takes no value is given one: a flag of the command, or its help action
+        takers = [p["name"].replace("_", "-") for p in opts if p["kind"] == "flag"] + ["help"]
+        n = rng.choice(takers)
+        n = rng.choice([n] + abbreviations(n, longs))
+        post.insert(rng.randint(0, len(post)), "--" + n + "=" + rng.choice(["x", "1", "", "True", "--", "0"]))
+    if defect in ("eqempty", "eqdash"):
+        valued = [p for p in opts if p["kind"] == "opt"]
+        if valued:
+            p = rng.choice(valued)
+            n = p["name"].replace("_", "-")
+            n = rng.choice([n] + abbreviations(n, longs))
+            post.append("--" + n + "=" + ("" if defect == "eqempty" else "--"))
     if opts_first is None:
         opts_first = rng.random() < 0.2
     toks = [cmd] + (post + pos if opts_first else pos + post)
     return " ".join(toks)
+
+
+def line_forms(line, cmds):
+    """which of the newer option forms a line uses (for the counters of the evidence file; the harness's own reading):
+    eq (`--name=value`), abbrev (an unambiguous abbreviation), ambiguous, explicit (`--flag=v` / `--help=v`),
+    unknown_long (a `--` string that is no option and no prefix of one)"""
+    toks = line.strip().split(" ")
+    out = set()
+    if not toks or toks == [""]:
+        return out
+    if toks[0].startswith("--") and toks[0] != "--":
+        name, has_eq, _ = toks[0][2:].partition("=")
+        r = resolves_to(name, ["help"])
+        if has_eq:
+            out.add("eq")
+        if r == "help" and name != "help":
+            out.add("abbrev")
+        if r == "help" and has_eq:
+            out.add("explicit")
+        return out
+    m = cmds.get(toks[0])
+    if m is None:
+        return out
+    longs = long_names(m)
+    flagsy = {"help"} | {p["name"].replace("_", "-") for p in m.get("params", []) if p["kind"] == "flag"}
+    for t in toks[1:]:
+        if not t.startswith("--") or t == "--":
+            continue
+        name, has_eq, _ = t[2:].partition("=")
+        r = resolves_to(name, longs)
+        if has_eq:
+            out.add("eq")
+        if r is None:
+            out.add("unknown_long")
+        elif isinstance(r, list):
+            out.add("ambiguous")
+        else:
+            if r != name:
+                out.add("abbrev")
+            if has_eq and r in flagsy:
+                out.add("explicit")
+    return out
 
 
 def all_option_subsets(m):
@@ -167,7 +293,8 @@ def session_line(rng, cmds, flags_by_cmd, profile):
     if r < good + defective:
         cmd = rng.choice(sorted(cmds))
         if rng.random() < 0.08:
-            return rng.choice([cmd + " -h", cmd + " --help", "-h", "--help"])
+            return rng.choice([cmd + " -h", cmd + " --help", "-h", "--help", cmd + " --he", cmd + " --hel", cmd + " --h",
+                               "--he", "--h " + cmd, "--hel=1", cmd + " --help=", cmd + " 1 --he"])
         return command_line(rng, cmd, cmds[cmd], flags_by_cmd.get(cmd, {}), bad=(defective / (good + defective)))
     if r < good + defective + malformed:
         return malformed_line(rng, cmds)
